@@ -75,13 +75,11 @@ func authorize(wd *world.World) (string, *grant) {
 	// the resource owner grants a symbolic subset
 	g.scopes = []string{"offline"}
 	if zz.Thorough() {
-		switch zz.Choice("grant", 4) {
+		switch zz.Choice("grant", 3) {
 		case 1:
-			g.scopes = []string{"offline", "photos"}
-		case 2:
 			g.scopes = []string{"offline", "mail"}
 			g.audience = []string{apiAud}
-		case 3:
+		case 2:
 			g.scopes = []string{"offline", "photos", "mail"}
 			g.audience = []string{apiAud}
 		}
